@@ -52,6 +52,7 @@ const PROV = {
   vue: { pre: "import { defineComponent, SetupContext } from 'vue';", callee: 'defineComponent', vue: true },
   vueWithOthers: { pre: "import { ref, defineComponent, SetupContext, h } from 'vue';", callee: 'defineComponent', vue: true },
   aliased: { pre: "import { defineComponent as dc, SetupContext } from 'vue';", callee: 'dc', vue: 'abstain' },
+  aliasedOther: { pre: "import { defineAsyncComponent as defineComponent, SetupContext } from 'vue';", callee: 'defineComponent', vue: false },
   namespace: { pre: "import * as Vue from 'vue';\nimport { SetupContext } from 'vue';", callee: 'Vue.defineComponent', vue: false },
   local: { pre: "import { SetupContext } from 'vue';\nfunction defineComponent(...a) { __out.local.push(a); return a; }", callee: 'defineComponent', vue: false },
   localConst: { pre: "import { SetupContext } from 'vue';\nconst defineComponent = (...a) => { __out.local.push(a); return a; };", callee: 'defineComponent', vue: false },
